@@ -232,3 +232,107 @@ def run_named(chk, thorough=False):
         chk.notes.append(f"{name}: {n} states, {len(pars)} parameters, symbolic calcQ + clauses in {time.time() - t0:.1f} s")
     if n_models == 0:
         chk.undecided.append("evolve.substitution_model.calcQ: no model could be evaluated symbolically")
+
+
+GDTRI = z3.Function("GDTRI", z3.RealSort(), z3.RealSort(), z3.RealSort())
+DEFN = "cogent3/recalculation/definition.py"
+
+
+def _replay_rates(cls, n):
+    def rep(model):
+        """native: the real calc of the rate-class definition on random weights / values: weighted mean of the result is 1"""
+        import random
+
+        import numpy
+
+        from cogent3.recalculation import definition as D
+        rnd = random.Random(9)
+        for _ in range(40):
+            raw = [rnd.uniform(0.1, 1.0) for _ in range(n)]
+            w = numpy.array(raw) / sum(raw)
+            if cls == "GammaDefn":
+                got = D.GammaDefn.calc(None, w, rnd.uniform(0.05, 5.0))
+            else:
+                got = getattr(D, cls).calc(None, w, numpy.array([rnd.uniform(0.01, 3.0) for _ in range(n)]))
+            mean = float((w * got).sum())
+            mono = cls == "WeightedPartitionDefn" or all(got[i] <= got[i + 1] + 1e-12 for i in range(n - 1))
+            if abs(mean - 1.0) > 1e-9 or not mono or min(got) < 0:
+                return {"failed": True, "witness": {"class": cls, "weights": list(map(float, w)), "result": list(map(float, got))},
+                        "description": f"{cls}.calc with {n} bins: weighted mean of the rate multipliers is {mean!r} (ordered: {mono})"}
+        return {"failed": False, "description": f"{cls}.calc with {n} bins: weighted mean 1 at 40 random points"}
+    return rep
+
+
+def rate_replayers():
+    return [_replay_rates(c, n) for c in ("WeightedPartitionDefn", "MonotonicDefn", "GammaDefn") for n in (1, 2, 4)]
+
+
+def run_rates(chk, thorough=False):
+    """rate-class multipliers average to one: the real ``calc`` of WeightedPartitionDefn, MonotonicDefn and GammaDefn run on
+    symbolic bin probabilities and values (the gamma quantile function gdtri is an uninterpreted function) for 1..N bins:
+    sum_i (w_i / sum w) r_i == 1 as an identity; r_i >= 0 and (Monotonic, Gamma with ordered quantiles) r_i <= r_{i+1} by
+    sign certificates.  All values, bin counts 1..5 (quick) / 1..8 (thorough)."""
+    import numpy
+
+    from cogent3.maths.stats import distribution as DIST
+    from cogent3.recalculation import definition as D
+    from pyvc import concolic as C
+    for q in ("WeightedPartitionDefn.calc", "MonotonicDefn.calc", "GammaDefn.calc"):
+        chk.function(DEFN, q, "P")
+    chk.assume("C05 rate classes: gdtri (gamma quantile, scipy) is an uninterpreted function GDTRI(a, p); its values are taken as "
+               "positive; the number of bins is a concrete 1..5 (thorough 1..8), all probabilities / values symbolic")
+    for cls in ("WeightedPartitionDefn", "MonotonicDefn", "GammaDefn"):
+        for n in range(1, (8 if thorough else 5) + 1):
+            fn = f"recalculation.definition.{cls}.calc"
+            base = f"{fn}/cfg=(bins={n})"
+            w = [z3.Real(f"w{i}") for i in range(n)]
+            x = [z3.Real(f"x{i}") for i in range(n)]
+            a = z3.Real("shape")
+            pre = [v > 0 for v in w + x] + [a > 0]
+
+            def call():
+                wa = numpy.array([C.Sym(v) for v in w], dtype=object)
+                if cls == "GammaDefn":
+                    saved = DIST.gdtri
+                    DIST.gdtri = lambda a_, b_, p_: C.Sym(GDTRI(C.term(a_), C.term(p_)))
+                    try:
+                        return D.GammaDefn.calc(None, wa, C.Sym(a))
+                    finally:
+                        DIST.gdtri = saved
+                return getattr(D, cls).calc(None, wa, numpy.array([C.Sym(v) for v in x], dtype=object))
+            try:
+                paths = C.explore(call, pre)
+            except Exception as e:
+                chk.undecided.append(f"{base}: the real code cannot be evaluated on symbolic reals ({type(e).__name__}: {e})")
+                continue
+            rets = [p for p in paths if p.outcome == "return"]
+            rep = _replay_rates(cls, n)
+            if len(rets) != 1 or len(paths) != 1:
+                chk.obligation(f"{base}/noexcept", "noexcept",
+                               lambda ps=paths: ("refuted", "concolic", 0.0, {}, f"{[(p.outcome, str(p.value)[:80]) for p in ps]}"),
+                               function=fn, key=f"C05/{fn}/noexcept", replayer=rep)
+                continue
+            try:
+                r = [C.term(v) for v in rets[0].value]
+            except Exception as e:
+                chk.undecided.append(f"{base}: result is not a vector of reals ({type(e).__name__}: {e})")
+                continue
+            if len(r) != n:
+                chk.obligation(f"{base}/post.one-multiplier-per-bin", "post",
+                               lambda k=len(r): ("refuted", "concolic", 0.0, {}, f"{k} multipliers for {n} bins"),
+                               function=fn, key=f"C05/{fn}/post.size", replayer=rep)
+                continue
+            # the bin probabilities sum to one where the definitions are used; GammaDefn normalises them itself, the other two
+            # take them as given -- the identity is stated with the probabilities each class works with
+            W = z3.Sum(w) if n > 1 else w[0]
+            pr = [w[i] / W for i in range(n)] if cls == "GammaDefn" else list(w)
+            mean = z3.Sum([pr[i] * r[i] for i in range(n)]) if n > 1 else pr[0] * r[0]
+            chk.obligation(f"{base}/post.weighted-mean-is-one", "post", identity_thunk(mean, z3.RealVal(1), "sum_i p_i r_i"),
+                           function=fn, key=f"C05/{fn}/post.mean", replayer=rep)
+            for i in range(n):
+                chk.obligation(f"{base}/post.multiplier-nonneg/bin={i}", "post", nonneg_thunk(r[i], f"r[{i}]"),
+                               function=fn, key=f"C05/{fn}/post.nonneg", replayer=rep)
+            if cls == "MonotonicDefn":
+                for i in range(n - 1):
+                    chk.obligation(f"{base}/post.ordered/bin={i}", "post", nonneg_thunk(r[i + 1] - r[i], f"r[{i + 1}] - r[{i}]"),
+                                   function=fn, key=f"C05/{fn}/post.ordered", replayer=rep)
